@@ -26,6 +26,15 @@ func tupleOrExpr(pos ast.Pos, elts []ast.Expr, optional_comma bool) ast.Expr {
 	}
 }
 
+// Checks the parameters made from a '*': a bare * must be followed by
+// keyword only parameters
+func starArgs(yylex yyLexer, args *ast.Arguments) *ast.Arguments {
+	if args.Vararg == nil && len(args.Kwonlyargs) == 0 {
+		yylex.(*yyLex).SyntaxError("named arguments must follow bare *")
+	}
+	return args
+}
+
 // Apply trailers (if any) to expr
 //
 // trailers are half made Call, Subscript or Attribute
@@ -481,11 +490,11 @@ typedargslist:
 	}
 |	tfpdeftests1 ',' '*' optional_tfpdef tfpdeftests
 	{
-		$$ = &ast.Arguments{Pos: $<pos>$, Args: $1, Defaults: $<exprs>1, Vararg: $4, Kwonlyargs: $5, KwDefaults: $<exprs>5}
+		$$ = starArgs(yylex, &ast.Arguments{Pos: $<pos>$, Args: $1, Defaults: $<exprs>1, Vararg: $4, Kwonlyargs: $5, KwDefaults: $<exprs>5})
 	}
 |	tfpdeftests1 ',' '*' optional_tfpdef tfpdeftests ',' STARSTAR tfpdef
 	{
-		$$ = &ast.Arguments{Pos: $<pos>$, Args: $1, Defaults: $<exprs>1, Vararg: $4, Kwonlyargs: $5, KwDefaults: $<exprs>5, Kwarg: $8}
+		$$ = starArgs(yylex, &ast.Arguments{Pos: $<pos>$, Args: $1, Defaults: $<exprs>1, Vararg: $4, Kwonlyargs: $5, KwDefaults: $<exprs>5, Kwarg: $8})
 	}
 |	tfpdeftests1 ',' STARSTAR tfpdef
 	{
@@ -493,11 +502,11 @@ typedargslist:
 	}
 |	'*' optional_tfpdef tfpdeftests
 	{
-		$$ = &ast.Arguments{Pos: $<pos>$, Vararg: $2, Kwonlyargs: $3, KwDefaults: $<exprs>3}
+		$$ = starArgs(yylex, &ast.Arguments{Pos: $<pos>$, Vararg: $2, Kwonlyargs: $3, KwDefaults: $<exprs>3})
 	}
 |	'*' optional_tfpdef tfpdeftests ',' STARSTAR tfpdef
 	{
-		$$ = &ast.Arguments{Pos: $<pos>$, Vararg: $2, Kwonlyargs: $3, KwDefaults: $<exprs>3, Kwarg: $6}
+		$$ = starArgs(yylex, &ast.Arguments{Pos: $<pos>$, Vararg: $2, Kwonlyargs: $3, KwDefaults: $<exprs>3, Kwarg: $6})
 	}
 |	STARSTAR tfpdef
 	{
@@ -576,11 +585,11 @@ varargslist:
 	}
 |	vfpdeftests1 ',' '*' optional_vfpdef vfpdeftests
 	{
-		$$ = &ast.Arguments{Pos: $<pos>$, Args: $1, Defaults: $<exprs>1, Vararg: $4, Kwonlyargs: $5, KwDefaults: $<exprs>5}
+		$$ = starArgs(yylex, &ast.Arguments{Pos: $<pos>$, Args: $1, Defaults: $<exprs>1, Vararg: $4, Kwonlyargs: $5, KwDefaults: $<exprs>5})
 	}
 |	vfpdeftests1 ',' '*' optional_vfpdef vfpdeftests ',' STARSTAR vfpdef
 	{
-		$$ = &ast.Arguments{Pos: $<pos>$, Args: $1, Defaults: $<exprs>1, Vararg: $4, Kwonlyargs: $5, KwDefaults: $<exprs>5, Kwarg: $8}
+		$$ = starArgs(yylex, &ast.Arguments{Pos: $<pos>$, Args: $1, Defaults: $<exprs>1, Vararg: $4, Kwonlyargs: $5, KwDefaults: $<exprs>5, Kwarg: $8})
 	}
 |	vfpdeftests1 ',' STARSTAR vfpdef
 	{
@@ -588,11 +597,11 @@ varargslist:
 	}
 |	'*' optional_vfpdef vfpdeftests
 	{
-		$$ = &ast.Arguments{Pos: $<pos>$, Vararg: $2, Kwonlyargs: $3, KwDefaults: $<exprs>3}
+		$$ = starArgs(yylex, &ast.Arguments{Pos: $<pos>$, Vararg: $2, Kwonlyargs: $3, KwDefaults: $<exprs>3})
 	}
 |	'*' optional_vfpdef vfpdeftests ',' STARSTAR vfpdef
 	{
-		$$ = &ast.Arguments{Pos: $<pos>$, Vararg: $2, Kwonlyargs: $3, KwDefaults: $<exprs>3, Kwarg: $6}
+		$$ = starArgs(yylex, &ast.Arguments{Pos: $<pos>$, Vararg: $2, Kwonlyargs: $3, KwDefaults: $<exprs>3, Kwarg: $6})
 	}
 |	STARSTAR vfpdef
 	{
@@ -1169,7 +1178,7 @@ while_stmt:
 for_stmt:
 	FOR exprlist IN testlist ':' suite optional_else
 	{
-		target := tupleOrExpr($<pos>$, $2, false)
+		target := tupleOrExpr($<pos>$, $2, $<comma>2)
 		setCtx(yylex, target, ast.Store)
 		$$ = &ast.For{StmtBase: ast.StmtBase{Pos: $<pos>$}, Target: target, Iter: $4, Body: $6, Orelse: $7}
 	}
